@@ -512,6 +512,17 @@ static struct upipe *alloc_qsink(struct side *s)
     return qsink;
 }
 
+/* the same pair, but nobody ever gives the queue source an event loop: the queue is only emptied when the source dies */
+static struct upipe *alloc_qsink_noloop(struct side *s)
+{
+    s->fx.provide_upump_mgr = false;
+    s->qsrc = upipe_qsrc_alloc(upipe_qsrc_mgr_alloc(), px_probe(&s->fx), 4);
+    assert(s->qsrc);
+    struct upipe *qsink = upipe_qsink_alloc(upipe_qsink_mgr_alloc(), px_probe(&s->fx), s->qsrc);
+    assert(qsink);
+    return qsink;
+}
+
 /* ------------------------------------------------------------------ */
 /* expected transformations (documented changes), written independently   */
 /* ------------------------------------------------------------------ */
@@ -679,6 +690,8 @@ static const struct row rows[] = {
      .nopts = 2, .opt = {{"limit", 3, rl_set, rl_get, rl_vs, "18446744073709551615"}, {"duration", 3, rd_set, rd_get, rd_vs, "27000000"}}},
     {.name = "qsink", .kind = K_HOLD, .alloc = alloc_qsink, .expect = exp_identity, .has_flush = true, .uses_pumps = true, .flowdef_in_band = true,
      .out_def_prefix = "block.", .nopts = 2, .opt = {{"max_length", 3, ml_set, ml_get, ml_vs, "0"}, {"pseudo_output", 3, qo_set, qo_get, qo_vs, "null"}}},
+    {.name = "qsink_noloop", .kind = K_HOLD, .alloc = alloc_qsink_noloop, .expect = exp_identity, .has_flush = true, .flowdef_in_band = true,
+     .out_def_prefix = "block."},
     {.name = "agg", .kind = K_RECHUNK, .alloc = alloc_agg, .bad_def = "pic.", .out_def_prefix = "block.",
      .nopts = 1, .opt = {{"output_size", 3, osz_set, osz_get, osz_vs, "1316"}}},
     {.name = "chunk", .kind = K_RECHUNK, .alloc = alloc_chunk, .bad_def = "pic.", .out_def_prefix = "block.",
